@@ -216,6 +216,32 @@ func (x *psExec) do(g string, op POp) {
 
 func genPSScenario(rng *rand.Rand, profile, mode string) any {
 	sc := &PScenario{Profile: profile, NCtx: 2}
+	if profile == "herd" {
+		// free-running only: one sender sending back to back, two standing subscribers, and waves of short-lived
+		// SubscribeContext subscribers that join while Sends are starting - a population far beyond the other profiles
+		nsend := 120 + rng.Intn(80)
+		var ops []POp
+		for i := 0; i < nsend; i++ {
+			ops = append(ops, POp{K: "send"})
+		}
+		sc.Drivers, sc.Names = append(sc.Drivers, ops), append(sc.Names, "P1")
+		for u := 1; u <= 2; u++ {
+			ops := []POp{{K: "sub"}}
+			for i := 0; i < nsend+5; i++ {
+				ops = append(ops, POp{K: "recv"})
+			}
+			ops = append(ops, POp{K: "unsub"})
+			sc.Drivers, sc.Names = append(sc.Drivers, ops), append(sc.Names, fmt.Sprintf("U%d", u))
+		}
+		for h := 1; h <= 24+rng.Intn(12); h++ {
+			var ops []POp
+			for k := 0; k < 3+rng.Intn(3); k++ {
+				ops = append(ops, POp{K: "nop", N: rng.Intn(4)}, POp{K: "iter", N: 1 + rng.Intn(2), Ctx: 1})
+			}
+			sc.Drivers, sc.Names = append(sc.Drivers, ops), append(sc.Names, fmt.Sprintf("H%d", h))
+		}
+		return sc
+	}
 	if rng.Intn(100) < 30 {
 		// shape: subscribers that leave in the middle of a Send nobody receives from, followed at once by further Sends
 		// (the hand-over of the pings a leaver absorbs, and what the next Send counts)
